@@ -936,6 +936,13 @@ pub fn run_parent(prop: &dyn Property, tier: Tier, seed: u64) -> i32 {
                         .rev()
                         .collect::<Vec<_>>()
                         .join(" | ");
+                    if !violations.is_empty() {
+                        // a violation is already reported with its replay file: reproducing and
+                        // shrinking the last case of every further dead worker (minutes each when the
+                        // fault is a hang or a memory blow-up) would only delay the verdict
+                        notes.push(format!("worker {} died as well ({}); not triaged, a violation had already been reported", w, desc));
+                        continue;
+                    }
                     if let Ok(line) = fs::read_to_string(&cur) {
                         if let Some((family, hx)) = line.trim().split_once(' ') {
                             let bytes = unhex(hx);
